@@ -1778,7 +1778,10 @@ func (r *replicateChannelHandler) handlePack(forward bool, pack *msgstream.MsgPa
 	}
 	GetTSManager().UnsafeUpdatePackTS(tsManagerChannelKey, newPack.BeginTs, func(newTS uint64) (uint64, bool) {
 		reset := resetMsgPackTimestamp(newPack, newTS)
-		generateTS = newPack.EndTs
+		// a pack without messages isn't moved, its end ts is the source ts which is behind the channel ts
+		if reset {
+			generateTS = newPack.EndTs
+		}
 		return newPack.EndTs, reset
 	})
 
